@@ -193,6 +193,10 @@ type Interp struct {
 	// once, and the values flowing along the back edge recorded in Loops.
 	LoopBodies bool
 	Loops      []*LoopSummary
+	// Unrolled counts, per function with a loop, the calls that were followed
+	// concretely (fixed trip count).
+	Unrolled map[*ssa.Function]int
+	loopy    map[*ssa.Function]bool
 	// OnPoll answers a non-blocking poll of the Done channel of the named
 	// context with a fresh observation.
 	OnPoll func(dev string) bdd.Node
@@ -244,6 +248,7 @@ func New(p *load.Program, c *dom.Ctx, t *dom.Trace) *Interp {
 		leafT:        map[string]types.Type{},
 		InitOverride: map[string]Value{},
 		Funcs:        map[*ssa.Function]int{},
+		Unrolled:     map[*ssa.Function]int{},
 		Externals:    map[string]int{},
 	}
 	return in
@@ -734,6 +739,26 @@ func (in *Interp) callBound(fn *ssa.Function, args []Value, bindings []Value, gu
 	}
 	if in.Unroll {
 		return in.runConcrete(fn, fr, guard, st, pos)
+	}
+	if !in.LoopBodies && in.hasLoop(fn) {
+		// a loop outside loop-summary mode: followed concretely - every branch
+		// condition must evaluate to a constant (a fixed trip count), the data
+		// may stay symbolic; otherwise the call is undecided as before
+		in.Unrolled[fn]++
+		loopLog.Lock()
+		loopLog.followed[fn]++
+		loopLog.Unlock()
+		done := false
+		defer func() {
+			if !done {
+				loopLog.Lock()
+				loopLog.failed[fn]++
+				loopLog.Unlock()
+			}
+		}()
+		rv, out := in.runConcrete(fn, fr, guard, st, pos)
+		done = true
+		return rv, out
 	}
 	order := rpo(fn)
 	index := make(map[*ssa.BasicBlock]int, len(order))
@@ -1800,6 +1825,27 @@ func (in *Interp) callInstr(fr *frame, x *ssa.Call, pred bdd.Node, st *State) Va
 					return in.C.Zext(in.C.Atom("len("+s.Sym+")", w-1), w)
 				}
 			}
+		case "min", "max":
+			// integers only; signedness from the static type
+			if len(args) >= 1 {
+				acc, ok := args[0].(dom.BV)
+				_, signed, okw := in.width(x.Type())
+				for _, a := range args[1:] {
+					bv, ok2 := a.(dom.BV)
+					if !ok || !ok2 || !okw || len(bv) != len(acc) {
+						ok = false
+						break
+					}
+					lt := in.C.Lt(bv, acc, signed)
+					if b.Name() == "max" {
+						lt = in.C.Lt(acc, bv, signed)
+					}
+					acc = in.C.Mux(lt, bv, acc)
+				}
+				if ok {
+					return acc
+				}
+			}
 		case "recover":
 			// no panic is in flight on the paths summarised (panics are C12's subject)
 			return &Iface{Nil: bdd.True}
@@ -1860,7 +1906,7 @@ func (in *Interp) callInstr(fr *frame, x *ssa.Call, pred bdd.Node, st *State) Va
 		return res
 	}
 	name := fn.String()
-	if strings.HasSuffix(name, "]") && strings.Contains(name, ").") {
+	if strings.HasSuffix(name, "]") {
 		// drop the type arguments of an instantiated generic method:
 		// "(*sync/atomic.Pointer[error]).Load[error]" -> "(*sync/atomic.Pointer).Load"
 		var b strings.Builder
@@ -2264,7 +2310,7 @@ func (in *Interp) runConcrete(fn *ssa.Function, fr *frame, guard bdd.Node, st *S
 		for _, instr := range b.Instrs {
 			in.unrollSteps++
 			if in.unrollSteps > 4000000 {
-				in.undecided(instr.Pos(), "initialisation does not finish within the step budget")
+				in.undecided(instr.Pos(), "a concretely followed loop does not finish within the step budget")
 			}
 			in.curInstr, in.curPred = instr, guard
 			switch x := instr.(type) {
@@ -2272,7 +2318,10 @@ func (in *Interp) runConcrete(fn *ssa.Function, fr *frame, guard bdd.Node, st *S
 			case *ssa.If:
 				cv, ok := in.operand(fr, x.Cond).(dom.BV)
 				if !ok || len(cv) != 1 || cv[0] > bdd.True {
-					in.undecided(x.Pos(), "initialisation branches on a value that is not a constant")
+					if in.Unroll {
+						in.undecided(x.Pos(), "initialisation branches on a value that is not a constant")
+					}
+					in.undecided(x.Pos(), "loop (back edge) in %s whose control flow depends on a value that is not a constant", fn.String())
 				}
 				if cv[0] == bdd.True {
 					next = b.Succs[0]
@@ -2405,4 +2454,44 @@ func (in *Interp) ifaceEq(a, b Value) (bdd.Node, bool) {
 		same = in.C.Atom("eq("+x+","+y+")", 1)[0]
 	}
 	return M.Or(bothNil, M.And(noneNil, same)), true
+}
+
+// hasLoop: the CFG of fn has a back edge (cached).
+func (in *Interp) hasLoop(fn *ssa.Function) bool {
+	if v, ok := in.loopy[fn]; ok {
+		return v
+	}
+	if in.loopy == nil {
+		in.loopy = map[*ssa.Function]bool{}
+	}
+	order := rpo(fn)
+	index := make(map[*ssa.BasicBlock]int, len(order))
+	for i, b := range order {
+		index[b] = i
+	}
+	has := false
+	for i, b := range order {
+		for _, s := range b.Succs {
+			if j, ok := index[s]; ok && j <= i {
+				has = true
+			}
+		}
+	}
+	in.loopy[fn] = has
+	return has
+}
+
+// loopLog records, process-wide, the functions with loops whose calls were
+// followed concretely, and those for which that failed at least once.
+var loopLog = struct {
+	sync.Mutex
+	followed, failed map[*ssa.Function]int
+}{followed: map[*ssa.Function]int{}, failed: map[*ssa.Function]int{}}
+
+// LoopFollowed: every interpreted call of fn (which has a loop) was followed
+// concretely to its end - its loops have a fixed trip count in every summary.
+func LoopFollowed(fn *ssa.Function) (calls int, always bool) {
+	loopLog.Lock()
+	defer loopLog.Unlock()
+	return loopLog.followed[fn], loopLog.followed[fn] > 0 && loopLog.failed[fn] == 0
 }
